@@ -149,6 +149,9 @@ def depth(tier):
     return 4
 
 
+DEEP = 5       # thorough: additionally all closed programs of <= 5 lines over the quick alphabet
+
+
 def s2_tasks(tier):
     from mc.props import c03, c08
     ts = [dict(t, src='c03') for t in c03.s2_tasks(tier)]
